@@ -603,7 +603,9 @@ func (g *gen) qualifyImport(name, path string) string {
 	// TODO(light): This is depending on details of the current loader.
 	const vendorPart = "vendor/"
 	unvendored := path
-	if i := strings.LastIndex(path, vendorPart); i != -1 && (i == 0 || path[i-1] == '/') {
+	// Look for the last path element "vendor", not for the last element
+	// that merely ends in "vendor".
+	if i := strings.LastIndex("/"+path, "/"+vendorPart); i != -1 {
 		unvendored = path[i+len(vendorPart):]
 	}
 	if info, ok := g.imports[unvendored]; ok {
